@@ -39,7 +39,7 @@ def strata(pid, t, rnd):
     def spelled(c, kind):
         return pairs.spell(c, kind, rnd)
 
-    w = {"C01": dict(uniform=1, threshold=1, grey=1, named=1, nearbg=.5, hair=.5, spell=1, isolum=.3, hairline=1, corner=.5, zeroone=1, edge=.5, ultrahair=1, neargrey=.5, informal=.5, razor=1, extreme=.5, hslbg=1, equilum=.4, css4=1),
+    w = {"C01": dict(uniform=1, threshold=1, grey=1, named=1, nearbg=.5, hair=.5, spell=1, isolum=.3, hairline=1, corner=.5, zeroone=1, edge=.5, ultrahair=1, neargrey=.5, informal=.5, razor=1, extreme=.5, hslbg=2.5, equilum=.4, css4=1),
          "C02": dict(uniform=.7, threshold=1, grey=.7, named=.5, nearbg=.7, hair=1.5, spell=1.2, isolum=4, hairline=1, corner=3, zeroone=1, ultrahair=.5, neargrey=1.5, informal=1.5, razor=1.4, extreme=.5, hslbg=1, equilum=.5),
          "C16": dict(uniform=.5, threshold=1.2, grey=.5, named=.3, nearbg=2.0, hair=.3, spell=.2, isolum=.5, edge=2, corner=.3, history=1, equilum=1),
          "C04": dict(uniform=1, threshold=1, grey=.5, named=.3, nearbg=1.5, hair=.2, spell=.3, isolum=.5),
@@ -244,15 +244,30 @@ def strata(pid, t, rnd):
                 # the BACKGROUND written as an exact hsl() value with its hue turns away (negative / beyond 360): near-black and
                 # near-grey backgrounds (saturation / lightness below 1 %), and ordinary ones just off a requirement
                 tq = rnd.choice(REQS)
-                if k % 3 == 0:
+                if pid == "C01" and k % 5 >= 2:
+                    # most of C01's share: pairs that need a fix (the result lands just above the requirement - against the
+                    # background as the library read it)
+                    a, b = pairs.near_threshold(rnd, tq, (0.0, 0.3))
+                    if k % 5 >= 3:
+                        # ... a MUTED background (a hue in any sector, little saturation: whatever a reader does to such a hue
+                        # still gives a colour) under a lighter text that misses the requirement by up to 0.3
+                        g_ = rnd.randrange(30, 125)
+                        b = tuple(min(255, max(0, g_ + rnd.randint(-22, 22))) for _ in range(3))
+                        cand = [v for v in range(256) if tq - 0.3 <= refs.wcag_ratio((v, v, min(255, v + 6)), b) < tq and v > max(b)]
+                        if cand:
+                            v = rnd.choice(cand)
+                            a = (v, v, min(255, v + 6))
+                elif k % 3 == 0:
                     g = rnd.choice([1, 2, 3, 5])
                     b = rnd.choice([(g, g, g), (g, g + 1, g), (g + 1, g, g)])
                     a = rnd.choice([(0, 0, 0), (255, 255, 255), (g + 2, g + 2, g + 2), pairs.rand_colour(rnd)])
                 elif k % 3 == 1:
                     b = pairs.neargrey(rnd)
                     a, _b = pairs.near_threshold(rnd, tq, (-0.05, 0.1))
-                else:
+                elif k % 2:
                     a, b = pairs.near_threshold(rnd, tq, (-0.04, 0.04))
+                else:
+                    a, b = pairs.near_threshold(rnd, tq, (0.0, 0.3))       # needs a fix: the result lands just above the requirement
                 bk = "hslmixed" if k % 4 == 3 else "hslodd"
                 add(a if k % 2 else spelled(a, "hslodd"), spelled(b, bk), large, "tuple" if k % 2 else "hslodd")
             elif name == "edge":
